@@ -144,7 +144,8 @@ def run(ctx):
         for f in found[:10]:
             ctx.violation("counterexample", f)
         return
-    conclude(ctx, res, runner, diffs, lambda d: found)
+    from corr import history_witnesses
+    conclude(ctx, res, runner, diffs, lambda d: found + history_witnesses(d))
 
 
 def replay(data):
